@@ -5,38 +5,53 @@ go 1.26
 require (
 	github.com/AdguardTeam/AdGuardHome v0.0.0
 	github.com/AdguardTeam/dnsproxy v0.75.3
+	github.com/AdguardTeam/golibs v0.32.8
+	github.com/AdguardTeam/urlfilter v0.20.0
 	github.com/anishathalye/porcupine v1.3.0
+	github.com/insomniacslk/dhcp v0.0.0-20250109001534-8abf58130905
+	github.com/miekg/dns v1.1.65
+	github.com/quic-go/quic-go v0.50.1
+	golang.org/x/net v0.39.0
 	pgregory.net/rapid v1.3.0
 )
 
 require (
-	github.com/AdguardTeam/golibs v0.32.8 // indirect
-	github.com/AdguardTeam/urlfilter v0.20.0 // indirect
+	github.com/NYTimes/gziphandler v1.1.1 // indirect
 	github.com/ameshkov/dnscrypt/v2 v2.4.0 // indirect
 	github.com/ameshkov/dnsstamps v1.0.3 // indirect
 	github.com/beefsack/go-rate v0.0.0-20220214233405-116f4ca011a0 // indirect
 	github.com/bluele/gcache v0.0.2 // indirect
+	github.com/c2h5oh/datasize v0.0.0-20231215233829-aa82cc1e6500 // indirect
+	github.com/digineo/go-ipset/v2 v2.2.1 // indirect
 	github.com/fsnotify/fsnotify v1.9.0 // indirect
+	github.com/go-ping/ping v1.2.0 // indirect
+	github.com/google/go-cmp v0.7.0 // indirect
+	github.com/google/gopacket v1.1.19 // indirect
 	github.com/google/renameio/v2 v2.0.0 // indirect
-	github.com/insomniacslk/dhcp v0.0.0-20250109001534-8abf58130905 // indirect
+	github.com/google/uuid v1.6.0 // indirect
 	github.com/josharian/native v1.1.1-0.20230202152459-5c7d0dd6ab86 // indirect
+	github.com/kardianos/service v1.2.2 // indirect
+	github.com/mdlayher/ethernet v0.0.0-20220221185849-529eae5b6118 // indirect
+	github.com/mdlayher/netlink v1.7.2 // indirect
 	github.com/mdlayher/packet v1.1.2 // indirect
 	github.com/mdlayher/socket v0.5.1 // indirect
-	github.com/miekg/dns v1.1.65 // indirect
 	github.com/patrickmn/go-cache v2.1.0+incompatible // indirect
 	github.com/pierrec/lz4/v4 v4.1.22 // indirect
+	github.com/pkg/errors v0.9.1 // indirect
 	github.com/quic-go/qpack v0.5.1 // indirect
-	github.com/quic-go/quic-go v0.50.1 // indirect
 	github.com/robfig/cron/v3 v3.0.1 // indirect
+	github.com/ti-mo/netfilter v0.5.2 // indirect
 	github.com/u-root/uio v0.0.0-20240224005618-d2acac8f3701 // indirect
 	go.etcd.io/bbolt v1.4.0 // indirect
 	golang.org/x/crypto v0.37.0 // indirect
 	golang.org/x/exp v0.0.0-20250408133849-7e4ce0ab07d0 // indirect
-	golang.org/x/net v0.39.0 // indirect
 	golang.org/x/sync v0.13.0 // indirect
 	golang.org/x/sys v0.32.0 // indirect
 	golang.org/x/text v0.24.0 // indirect
 	gonum.org/v1/gonum v0.16.0 // indirect
+	gopkg.in/natefinch/lumberjack.v2 v2.2.1 // indirect
+	gopkg.in/yaml.v3 v3.0.1 // indirect
+	howett.net/plist v1.0.1 // indirect
 )
 
 replace github.com/AdguardTeam/AdGuardHome => /repo
